@@ -12,6 +12,7 @@ from . import values as V
 from .world import serif
 
 SIMPLE = ["a", "b", "c", "d", "x", "y"]
+_COLLIDE = {-1: -2, -2: -1, 0: V.M61, V.M61: 0}
 _IDENT = re.compile(r"^[a-z][a-z0-9]*$")
 _RESERVED = None
 
@@ -238,9 +239,17 @@ class Gen:
         cells = ["", " ", "1", "2", "2.5", "abc", " 7 ", "1e3", "nan", "inf", "True", "-0", "0x1", "x y", "3"]
         ncols = r.randint(1, 3)
         nrows = r.randint(0, 4)
+        big = r.random() < 0.04
+        if big:
+            nrows = r.choice([4097, 4100, 5000])      # beyond any plausible sniffing window
+            ncols = 1
         header = r.random() < 0.8
         rows = [[r.choice(["a", "b", "c", "a b", ""]) for _ in range(ncols)]] if header else []
         colpool = [r.sample(cells, r.randint(1, 4)) for _ in range(ncols)]
+        if big:
+            lead = r.choice(["1", "2.5", "abc"])
+            rows += [[lead]] * (nrows - 3)
+            nrows = 3
         for _ in range(nrows):
             k = ncols if r.random() < 0.8 else r.randint(1, ncols)      # short records are padded
             rows.append([r.choice(colpool[j]) for j in range(k)])
@@ -287,6 +296,8 @@ class Gen:
         pool = list(self.k.get("names", SIMPLE))
         r.shuffle(pool)
         names = pool[:ncols]
+        while len(names) < ncols:          # wide tables: more columns than the name pool has names
+            names.append("n%d" % len(names))
         ncols = len(names)
         ragged_at = None
         if self.chance("p_ragged", 0.0) and ncols >= 2:
@@ -858,6 +869,22 @@ class Gen:
         if m == 0:
             vals = []
         spec = self.value_spec(vals) if vals else {"k": "list", "v": []}
+        if c.kind == "float" and vals and r.random() < 0.6:
+            # an infinity is overwritten by the other one now and then (unequal, and hash() tells them apart)
+            for q, p in enumerate(pos[:len(vals)]):
+                old = c.vals[p] if p < len(c.vals) else None
+                if isinstance(old, float) and old in (float("inf"), float("-inf")):
+                    vals[q] = -old
+        if c.kind == "int" and vals and r.random() < self.k.get("p_collide", 0.15):
+            # replace a value by one Python's hash() cannot tell from it (-1/-2, 0/2**61-1): the edit
+            # a cache validated by hashes or fingerprints does not notice
+            for q, p in enumerate(pos[:len(vals)]):
+                old = c.vals[p] if p < len(c.vals) else None
+                if type(old) is int and old in _COLLIDE:
+                    vals[q] = _COLLIDE[old]
+        donors = [i for i in infos if not i.is_table and not i.weird and i.n == m and i.name != c.name and i.kind == c.kind]
+        if donors and m > 0 and r.random() < 0.12:
+            spec = {"k": "h", "h": r.choice(donors).name}       # the value is a vector the program keeps holding
         if key["k"] == "int":
             # one position takes a scalar; a sequence there would be stored as an element
             spec = {"k": "s", "v": V.enc(vals[0])}
@@ -872,7 +899,7 @@ class Gen:
                 else:
                     key["v"][r.randrange(len(key["v"]))] = bad
                 rec["nat"] = "index"
-            elif t < 0.7 and spec["k"] != "s":
+            elif t < 0.7 and spec["k"] not in ("s", "h"):
                 if r.random() < 0.5 and spec["v"]:
                     spec["v"].pop()
                 else:
@@ -882,6 +909,19 @@ class Gen:
                 key["v"].append(True)
                 rec["nat"] = "masklen"
         self.faulty(rec, spec, m)
+        self.touch(c.name)
+        return rec
+
+    def g_hammer(self, world, infos):
+        r = self.rng
+        c = self.pick([i for i in infos if not i.is_table and not i.weird and 0 < i.n <= 12 and i.kind in V.POOLS])
+        if not c:
+            return None
+        vals = [V.pick_value(r, c.kind, 0.0) for _ in range(r.randint(2, 5))]
+        if r.random() < 0.6:
+            vals[r.randrange(len(vals))] = None
+        rec = {"op": "hammer", "h": c.name, "k": r.choice([127, 128, 129, 130, 200, 257]), "start": r.randrange(c.n),
+               "vals": V.enc_list(vals)}
         self.touch(c.name)
         return rec
 
@@ -942,14 +982,25 @@ class Gen:
         cls_all = []
         for j in cpos:
             vals, cls = self.write_values(c.colkinds[j], len(rpos), None)
+            if c.colkinds[j] == "int" and r.random() < self.k.get("p_collide", 0.15):
+                try:
+                    oldcol = list(tcols[j])
+                    for q, p in enumerate(rpos[:len(vals)]):
+                        if type(oldcol[p]) is int and oldcol[p] in _COLLIDE:
+                            vals[q] = _COLLIDE[oldcol[p]]
+                except Exception:
+                    pass
             colvals.append(vals)
             cls_all.append(cls)
         t = r.random()
         single_row = rows["k"] == "int"
         if t < 0.3:
             # scalar broadcast
-            kd = c.colkinds[cpos[0]] if c.colkinds[cpos[0]] in V.POOLS else "int"
-            val = {"k": "s", "v": V.enc(V.pick_value(r, kd, 0.0))}
+            # one scalar for every addressed cell, drawn from the same value classes as any other
+            # write (same / None / wider / narrower / incompatible) relative to the first column
+            sv, scls = self.write_values(c.colkinds[cpos[0]], 1, None)
+            val = {"k": "s", "v": V.enc(sv[0])}
+            cls_all = [scls]
             shape = "scalar"
         elif single_row:
             val = {"k": r.choice(["list", "tuple", "gen"]), "v": V.enc_list([cv[0] for cv in colvals])}
@@ -1007,7 +1058,7 @@ class Gen:
         m = c.n if not bad else max(0, c.n + r.choice([-1, 1]))
         vecs = [i for i in infos if not i.is_table and not i.weird and i.n == m]
         held = [k for k in sorted(world.inputs) if isinstance(world.inputs[k], (list, tuple)) and len(world.inputs[k]) == m]
-        if bad and c.n >= 1 and r.random() < 0.3:
+        if bad and 1 <= c.n <= 12 and r.random() < 0.3:
             # a list of len(table) vectors whose own length differs: its outer length looks right
             inner = max(1, c.n + r.choice([-1, 1, 2]))
             val = {"k": "lov", "v": [V.enc_list(self.vals_of("int", inner, p_none=0.0)) for _ in range(c.n)]}
